@@ -32,7 +32,7 @@ type PkgSpec struct {
 type JobSpec struct {
 	Harness  string             `json:"harness"`
 	Pkg      string             `json:"pkg"`
-	Params   map[string][]int64 `json:"params"`
+	Params   map[string]ParamVals `json:"params"`
 	Tier     string             `json:"tier"` // "quick" (also run in thorough) or "thorough"
 	Hang     bool               `json:"hang_is_violation"`
 	Sample   int                `json:"sample"` // >0: take a seed-chosen subset of the expanded parameter combinations (quick tier only)
@@ -188,7 +188,28 @@ func LoadProgram(sp *Spec, opt Options) (*ssa.Program, error) {
 	return prog, nil
 }
 
-func expandParams(p map[string][]int64) []map[string]int64 {
+// ParamVals is a list of values, or {"range":[lo,hi]} (hi exclusive).
+type ParamVals []int64
+
+func (p *ParamVals) UnmarshalJSON(data []byte) error {
+	var list []int64
+	if err := json.Unmarshal(data, &list); err == nil {
+		*p = list
+		return nil
+	}
+	var r struct {
+		Range []int64 `json:"range"`
+	}
+	if err := json.Unmarshal(data, &r); err != nil || len(r.Range) != 2 {
+		return fmt.Errorf("bad parameter values %s", data)
+	}
+	for v := r.Range[0]; v < r.Range[1]; v++ {
+		*p = append(*p, v)
+	}
+	return nil
+}
+
+func expandParams(p map[string]ParamVals) []map[string]int64 {
 	keys := make([]string, 0, len(p))
 	for k := range p {
 		keys = append(keys, k)
